@@ -212,7 +212,12 @@ def run(ctx):
         cs_calls = [par.stmt_of(n) for n in astx.walk_fn(ge.node) if isinstance(n, ast.Call) and txt(n.func) == "self.compute_scores"]
         for call_st in cs_calls:
             blk = wl.body if par.inside(call_st, wl) else ge.body
-            after = [n for n in sweeps if any(_top(par, n[0], blk_owner(par, call_st, wl, ge)) is s for s in blk[blk.index(call_st) + 1:])]
+            # the sweep must follow the call in the SAME block (its own outer loop is the top-level statement there): a
+            # sweep that only happens inside a later loop runs after the next clique has been chosen on a stale graph
+            def _sweep_loop(n_):
+                outer_ = [l for l in par.loops_of(n_[0]) if isinstance(l, ast.For)]
+                return outer_[0] if outer_ else n_[0]
+            after = [n for n in sweeps if any(_sweep_loop(n) is s for s in blk[blk.index(call_st) + 1:])]
             if after:
                 il, N, X, call, _, _ = after[0]
                 full = bool(_sweep_of_cover(par, il, X)) and (N == f"len({X})" or _n_is_len(par, il, N, X))
